@@ -2,7 +2,7 @@
 #include <stdint.h>
 #include <string.h>
 #include <omp.h>
-typedef struct { int nthreads, strategy, chunk_shuffle, preempt_mean, window_pct, poison, record_trace, team_limit; uint64_t max_steps, window_fn; } Cfg;
+typedef struct { int nthreads, strategy, chunk_shuffle, preempt_mean, window_pct, poison, record_trace, team_limit; uint64_t max_steps, window_fn, flags; } Cfg;
 void simgomp_begin(uint64_t, Cfg*); void simgomp_end(void*); int simgomp_error(char*, int);
 int main(int argc,char**argv){
   int nt=argc>1?atoi(argv[1]):4; int strat=argc>2?atoi(argv[2]):0;
